@@ -80,14 +80,18 @@ def norm(tokens, dlevel: int, listform: bool):
         d["level"] -= dlevel
         if listform:
             d["hidden"] = False
-            if d["type"] == "inline":
-                d["content_cmp"] = re.sub(r"\n +", "\n", d["content"])
+            d["content_cmp"] = re.sub(r"\n +", "\n", d["content"]) if d["type"] == "inline" else None
         out.append(d)
     return out
 
 
-def _refs(env):
-    return env.get("references", {}), env.get("duplicate_refs", [])
+def _refs(env, listform: bool = False):
+    refs, dups = env.get("references", {}), env.get("duplicate_refs", [])
+    if listform:
+        # a multi-line title keeps the indentation of its (lazy) continuation lines - the exemption the property grants
+        fix = lambda r: {k: (re.sub(r"\n +", "\n", v) if isinstance(v, str) else v) for k, v in r.items()}  # noqa: E731
+        return {k: fix(v) for k, v in refs.items()}, [fix(v) for v in dups]
+    return refs, dups
 
 
 _MD = {}
@@ -156,8 +160,9 @@ def check(case) -> Res:
                 return res
             a = norm(tl[2:-2], 2, True)
             b = norm(t0, 0, True)
+            lazy_ok = any(t.type in ("blockquote_open", "bullet_list_open", "ordered_list_open") for t in t0)
             for x, y in zip(a, b):
-                if x["type"] == "inline" and x["content"] != y["content"]:
+                if lazy_ok and x["type"] == "inline" and x["content"] != y["content"]:
                     # lazy-continuation indentation differs: compare content modulo it, not children
                     x["children"] = y["children"] = None
                     x["content"] = y["content"] = x["content_cmp"]
@@ -170,7 +175,9 @@ def check(case) -> Res:
                     res.fail("list:item-info", f"marker {marker!r}: info={tl[1].info!r} markup={tl[1].markup!r}")
                 if (tl[0].attrs.get("start", 1)) != num:
                     res.fail("list:start", f"marker {marker!r}: attrs={tl[0].attrs}")
-            if _refs(envl) != _refs(env0):
+            # indentation can only survive on lazy continuation lines, and those need a container inside D
+            lazy_possible = any(t.type in ("blockquote_open", "bullet_list_open", "ordered_list_open") for t in t0)
+            if _refs(envl, lazy_possible) != _refs(env0, lazy_possible):
                 res.fail("list:references-differ", f"D={D!r}")
             res.cls.append("list")
             D, t0, env0 = LD, tl, envl
